@@ -298,9 +298,9 @@ def show(a):
 
 def run(function, bound, max_cases, seeds, only_serves, max_fail=3, time_limit=None):
     load_sidecars()
-    c = REG[function]
+    c = REG.get(function)
     out = {"function": function, "bound": bound, "cases": 0, "skipped": 0, "failures": [], "exhausted": True}
-    if c.gen is None:
+    if c is None or c.gen is None:
         out["error"] = "no input generator declared (gen=...)"
         return out
     params = inspect.signature(c.gen).parameters
